@@ -200,7 +200,8 @@ def generate(seed, tier, index):
                 ops += [["setup", "churn"] if rf.chance(0.2) else ["setup"]]
                 if rf.chance(0.3):
                     ops += [[rf.choice(["progress", "is_complete", "observe"])]]
-                ops += [["drive", plan, CAP], ["output", "v%d_%d" % (v, rep)]]
+                # (some callers loop on is_complete() instead of the return values)
+                ops += [["drive", plan, CAP] + (["ic"] if rf.chance(0.3) else []), ["output", "v%d_%d" % (v, rep)]]
                 if rf.chance(0.3):
                     ops += [["output", "v%d_%d_again" % (v, rep)]]
                 ending = rf.wchoice([("finalize", 4), ("none", 2), ("double", 1)])
